@@ -136,7 +136,11 @@ SPECS["C05"] = dict(
     parts=[dict(name="pipeline", pkg="internal/upstream/transport", run="TestVerifC05", go="go1.26", env=E3ENV, gomaxprocs=1, engines=E3ENGINES,
                 files=dict(TRANSPORT_COMMON, **{"harness/transport/zz_verif_c05_test.go": "internal/upstream/transport/zz_verif_c05_test.go"}),
                 params={"quick": {"DEPTH": 7, "FAULTS": 2}, "thorough": {"DEPTH": 9, "FAULTS": 3}},
-                budget={"quick": 60, "thorough": 600})],
+                budget={"quick": 60, "thorough": 600}),
+           dict(name="idtable-e2", pkg="internal/upstream/transport", run="TestVerifC05E2", go="go", engines=E2ENGINES,
+                files={"harness/transport/zz_verif_c05e2_test.go": "internal/upstream/transport/zz_verif_c05e2_test.go"},
+                generate=rewrite_imports("internal/upstream/transport/pipeline_conn.go", {"sync": ("sync", "vsync")}),
+                params={"quick": {"PREEMPTIONS": 2}, "thorough": {"PREEMPTIONS": 4}}, budget={"quick": 60, "thorough": 600})],
 )
 
 SPECS["C06"] = dict(
